@@ -107,6 +107,7 @@ func menuH264() fmtMenu {
 		{"sps-empty+pps-empty", []byte{}, []byte{}, "empty (non-nil) parameter sets"},
 		{"sps+pps-empty", h264SPS1, []byte{}, "empty (non-nil) PPS"},
 		{"annexb-prefixed", append([]byte{0, 0, 0, 1}, h264SPS1...), append([]byte{0, 0, 0, 1}, h264PPS1...), "Annex-B start code inside the parameter set"},
+		{"annexb-prefixed-twice", h264SPS1, append([]byte{0, 0, 0, 1, 0, 0, 0, 1}, h264PPS1...), "two Annex-B start codes in front of the PPS"},
 	}
 	for _, pt := range []uint8{96, 127, 35} { // 35 is accepted for H264 by format.Unmarshal
 		for _, pm := range []int{0, 1, 2} {
@@ -148,6 +149,8 @@ func menuH265() fmtMenu {
 		{"sps+pps", nil, h265SPS1, h265PPS1, "parameter sets not all together"},
 		{"sps-unparsable", h265VPS1, []byte{0x42, 0x01}, h265PPS1, "SPS does not parse"},
 		{"all-empty", []byte{}, []byte{}, []byte{}, "empty (non-nil) parameter sets"},
+		{"annexb-prefixed", append([]byte{0, 0, 0, 1}, h265VPS1...), append([]byte{0, 0, 0, 1}, h265SPS1...), append([]byte{0, 0, 0, 1}, h265PPS1...), "Annex-B start code inside the parameter sets"},
+		{"annexb-prefixed-twice", append([]byte{0, 0, 0, 1, 0, 0, 0, 1}, h265VPS1...), h265SPS1, append([]byte{0, 0, 0, 1, 0, 0, 0, 1}, h265PPS1...), "two Annex-B start codes in front of VPS and PPS"},
 	}
 	for _, pt := range dynPTs {
 		for _, don := range []int{0, 2} {
